@@ -102,6 +102,12 @@ type Engine struct {
 	prog      *ssa.Program
 	fast      *Solver
 	strong    *Solver
+	alts      map[string]*Solver // fallback obligation solvers, started on first use
+	altNames  []string
+	strongT   int
+	stagedSet bool
+	fallbackHits map[string]int
+	fallbackErr  map[string]int
 	nextObj   int
 	nextEpoch int
 	base      map[int]*Obj
